@@ -616,6 +616,31 @@ pub fn generate(seed: u64, focus: &str, _tier: Tier) -> AgentScenario {
         };
         store_fault = StoreFaultCfg::None;
     }
+    // Busy read side, no remote on the write side (C04 / C17): one remote that never links is given up by the write task
+    // after the prune delay (its channel to the agent stays open); it goes on sending commands - for a lane that does
+    // not exist, so that no lane event and no coordination message reaches the write task - more often than the
+    // inactivity period, well past the moment the write task has been idle for a whole period.
+    if focus == "C04" && root.sub("busy-read-side").chance(1, 12) && !peers.is_empty() {
+        let mut br = root.sub("busy-read-side-n");
+        let t = *br.pick(&[5_000u64, 30_000]);
+        let p = *br.pick(&[1_000u64, 5_000]);
+        knobs.inactive_timeout_ms = t;
+        knobs.prune_ms = p;
+        peers.truncate(1);
+        let mut ops = vec![];
+        let hops = (p + 2 * t) / (t / 3) + br.range(1, 4);
+        for _ in 0..hops {
+            let v = g.vals(1);
+            ops.push(Op::Cmd { lane: "nolane".into(), body: v.to_string() });
+            ops.push(Op::Sleep { ms: t / 3 });
+        }
+        peers[0].ops = ops;
+        peers[0].attach_delay = 0;
+        peers[0].attach_after_ms = 0;
+        peers[0].reattach_of = None;
+        peers[0].read.freeze_after = 0;
+        ending = Ending::Timeout;
+    }
     let fake_persist = if focus == "C05F" {
         let mut fr = root.sub("fake-persist");
         let late_map_after = if fr.chance(1, 2) { Some(fr.range(0, 12) as u32) } else { None };
